@@ -77,6 +77,22 @@ def const_instr(t, bits):
     return ('%s.const' % t, bits)
 
 
+def _natural_align(name):
+    import re
+    m = re.search(r'(?:load|store|rmw)(8|16|32)', name)
+    if m:
+        return {'8': 0, '16': 1, '32': 2}[m.group(1)]
+    if 'wait64' in name:
+        return 3
+    if 'wait32' in name or 'notify' in name:
+        return 2
+    return 3 if name.startswith(('i64', 'f64')) else 2
+
+
+_ZOO_M = sorted(n for n, v in wasm.OPS.items() if v[2] == 'm')
+_ZOO_PLAIN = sorted(n for n, v in wasm.OPS.items() if v[2] == '' and n not in ('unreachable', 'nop', 'else', 'end', 'return', 'drop', 'select', 'atomic.fence'))
+
+
 class Profile:
     def __init__(self, **kw):
         self.ops = set(wasm.NUMERIC)  # allowed numeric ops
@@ -427,6 +443,22 @@ class FuncGen:
             return [('i64.const', 0x9e3779b97f4a7c15 + salt), ('i64.xor',), ('i64.const', 11), ('i64.rotl',)]
         return [('%s.neg' % t,)]
 
+    def zoo_unit(self):
+        """One arbitrary instruction of the WHOLE supported opcode table (incl. every 0xFC / 0xFE prefixed one) for dead code: its
+        operands come from the polymorphic stack, its results are dropped. Immediates use byte values that would be structural
+        opcodes (end, else, block, loop, if, br, ...) if a decoder skipped them incorrectly."""
+        r = self.r
+        name = r.choice(_ZOO_M if (self.c.has_mem and r.random() < 0.6) else _ZOO_PLAIN)
+        prefix, code, imm, params, results = wasm.OPS[name]
+        if imm == 'm':
+            nat = _natural_align(name)
+            align = nat if '.atomic.' in name else r.randint(0, nat)
+            off = r.choice([0, 1, 2, 3, 4, 5, 0x0b, 0x0b, 0x0c, 0x0d, 0x0e, 0x0f, 0x10, 0x11, 0x40, 0x7f, 0x80, 0x0b0b, 0x3fff, 0xfe, 0xfc])
+            ins = (name, align, off)
+        else:
+            ins = (name,)
+        return [ins] + [('drop',)] * len(results)
+
     def dead(self, t, d):
         """Code that is unreachable but must still be decoded correctly (immediates, nested blocks)."""
         r = self.r
@@ -434,7 +466,10 @@ class FuncGen:
         saved = self.size
         for _ in range(r.randint(1, 3)):
             x = r.random()
-            if x < 0.4:
+            if x < 0.25:
+                for _ in range(r.randint(1, 4)):
+                    out += self.zoo_unit()
+            elif x < 0.5:
                 out += self.stmts(max(1, d))
             elif x < 0.7:
                 tt = r.choice(self.p.types)
